@@ -2411,6 +2411,14 @@ impl RaftNode {
             return;
         }
 
+        // A response from an earlier term describes the follower's log as it was under
+        // that term's leader; the follower may have been overwritten since. Using it
+        // would let a delayed message inflate match_index and commit entries the
+        // follower no longer holds.
+        if aer.term < persistent.current_term {
+            return;
+        }
+
         let should_advance_commit = {
             let mut leadership = self.leadership.write();
             if let Some(ref mut ls) = leadership.leader_volatile {
